@@ -33,6 +33,7 @@ EXTENDS TypeAlgebra, Json
 CONSTANTS AtomNames, SibNames, KeyNames, ArgKinds, TemplateNames,
           Depth3From,    \* kinds of depth-2 argument types nested once more ...
           Depth3Cons,    \* ... by these constructors (nested arrays of optionals, table<K, V?[]>, ..)
+          UnionOfContainers, \* BOOLEAN: also unions of arrays / of tables (and with nil, and mixed) as arguments
           SecondArgKinds \* kinds of constructed types also used as the second argument of two-parameter templates
 
 VARIABLE c
@@ -86,18 +87,48 @@ D3 == LET S == {x \in D2 : Kind(x) \in Depth3From} IN
       (IF "opt" \in Depth3Cons THEN {Opt(a) : a \in {x \in S : ~HasNil(x)}} ELSE {}) \cup
       (IF "arr" \in Depth3Cons THEN {Arr(a) : a \in S} ELSE {}) \cup
       (IF "map" \in Depth3Cons THEN {Map(k, a) : k \in K0, a \in S} ELSE {})
-ArgTypes == A0 \cup D1 \cup D2 \cup D3
+\* UNION-OF-CONTAINERS arguments (second seeded round): `A[] | B[]`, `table<K1, A> | table<K2, B>` with different
+\* element types (atoms and arrays), the same with nil (`(A[] | B[])?`), and a union of an array and a table
+UE == {x \in A0 : x # TNil /\ Kind(x) \in {"prim", "lit"}} \cup {Ref("A")} \cup {Arr(Prim("integer"))}
+UR == {x \in R0 : x # TNil} \cup {Arr(Prim("boolean"))}
+UK == K0 \cup {Prim("integer")}
+UArr == {Un(<<Arr(p[1]), Arr(p[2])>>) : p \in {q \in UE \X UR : q[1] # q[2]}}
+UMap == {Un(<<Map(k1, p[1]), Map(k2, p[2])>>) : k1 \in K0, k2 \in UK, p \in {q \in UE \X UR : q[1] # q[2]}}
+UMixed == {Un(<<Arr(a), Map(k, b)>>) : a \in {x \in R0 : x # TNil}, k \in K0, b \in UR}
+UC == IF UnionOfContainers THEN UArr \cup UMap \cup UMixed \cup {Opt(u) : u \in UArr \cup UMap} ELSE {}
+ArgTypes == A0 \cup D1 \cup D2 \cup D3 \cup UC
 
 \* ---- reference matcher: result <<ok, bindings>>, bindings a set of <<param name, term>>
 RECURSIVE Match(_, _), HasTpl(_)
 HasTpl(p) == Kind(p) = "tpl" \/ \E i \in 1..Len(Kids(p)) : HasTpl(Kids(p)[i])
 Both(r1, r2) == <<r1[1] /\ r2[1], r1[2] \cup r2[2]>>
+\* a union argument all of whose members are containers of the pattern's shape is matched ELEMENT-WISE ("containers such
+\* as T[] and table<K,V> are instantiated element-wise"): q[] against A[] | B[] is q against A | B, exactly as the analyser
+\* does for a tuple argument ([A, B] is collapsed to A | B); every member contributes -- an answer that keeps one member's
+\* element type and silently drops the others is wrong.  A union with nil or with a member of another shape stays ambiguous.
+AllKind(a, k) == Kind(a) = "union" /\ \A i \in 1..Len(Kids(a)) : Kind(Kids(a)[i]) = k
+RECURSIVE DedupSeq(_, _)
+DedupSeq(s, seen) == IF s = <<>> THEN <<>>
+                     ELSE IF Head(s) \in seen THEN DedupSeq(Tail(s), seen)
+                     ELSE <<Head(s)>> \o DedupSeq(Tail(s), seen \cup {Head(s)})
+RECURSIVE FlatKids(_, _, _)
+FlatKids(a, j, i) == IF i > Len(Kids(a)) THEN <<>> ELSE UMembers(Kids(Kids(a)[i])[j]) \o FlatKids(a, j, i + 1)
+\* the union of the j-th children of the members of the union a (flattened, duplicates removed, nil last as `t?`)
+KidUnion(a, j) == LET ms == DedupSeq(FlatKids(a, j, 1), {})
+                      nn == SelectSeq(ms, LAMBDA x : x # TNil) IN
+                  IF Len(ms) = 1 THEN ms[1]
+                  ELSE IF Len(nn) = Len(ms) THEN Un(ms)
+                  ELSE IF Len(nn) = 1 THEN Opt(nn[1]) ELSE Opt(Un(nn))
 Match(p, a) ==
   IF ~HasTpl(p) THEN <<TRUE, {}>>
   ELSE CASE Kind(p) = "tpl" -> <<TRUE, {<<Name(p), a>>}>>
-         [] Kind(p) = "arr" -> IF Kind(a) = "arr" THEN Match(Kids(p)[1], Kids(a)[1]) ELSE <<FALSE, {}>>
+         [] Kind(p) = "arr" -> IF Kind(a) = "arr" THEN Match(Kids(p)[1], Kids(a)[1])
+                               ELSE IF AllKind(a, "arr") THEN Match(Kids(p)[1], KidUnion(a, 1))   \* element-wise
+                               ELSE <<FALSE, {}>>
          [] Kind(p) = "map" -> IF Kind(a) = "map"
                                THEN Both(Match(Kids(p)[1], Kids(a)[1]), Match(Kids(p)[2], Kids(a)[2]))
+                               ELSE IF AllKind(a, "map")
+                               THEN Both(Match(Kids(p)[1], KidUnion(a, 1)), Match(Kids(p)[2], KidUnion(a, 2)))
                                ELSE <<FALSE, {}>>
          [] Kind(p) = "opt" -> Match(Kids(p)[1], a)      \* union pattern q|nil: q against the whole argument
          [] Kind(p) = "fun0" -> IF Kind(a) = "fun0" THEN Match(Kids(p)[1], Kids(a)[1]) ELSE <<FALSE, {}>>
@@ -141,6 +172,14 @@ ElemWrap == (c[1] = "wrap" /\ Judged) => Match(Arr(T), Expected)[2] = {<<"T", Wi
 \* (in particular an optional argument keeps its nil), and T? -> T? only adds nil
 OptLaw == /\ (c[1] = "unopt") => Judged /\ Expected = Widen(c[2][1])
           /\ (c[1] = "optid") => Judged /\ Expected = MkOpt(Widen(c[2][1]))
+\* element-wise instantiation of a union of containers: no member is dropped -- T[] -> T applied to A[] | B[] denotes
+\* exactly the members of A and of B
+NoMemberDropped ==
+  (c[1] = "elem" /\ AllKind(c[2][1], "arr")) =>
+     /\ Judged
+     /\ {Norm(m) : m \in {UMembers(Expected)[i] : i \in 1..Len(UMembers(Expected))}} =
+        UNION {{Norm(x) : x \in {UMembers(Kids(Kids(c[2][1])[i])[1])[j] : j \in 1..Len(UMembers(Kids(Kids(c[2][1])[i])[1]))}} :
+               i \in 1..Len(Kids(c[2][1]))}
 \* the expected type is a well-formed term: no optional of a nullable type
 RECURSIVE WellFormed(_)
 WellFormed(t) == /\ Kind(t) = "opt" => ~HasNil(Kids(t)[1])
@@ -153,6 +192,12 @@ AnyOpt(p) == Kind(p) = "opt" \/ \E i \in 1..Len(Kids(p)) : AnyOpt(Kids(p)[i])
 AnyNil(a) == HasNil(a) \/ \E i \in 1..Len(Kids(a)) : AnyNil(Kids(a)[i])
 OptNil == \E i \in 1..Len(c[2]) : AnyOpt(Tmpl[2][i]) /\ AnyNil(c[2][i])
 
+\* the declared return type with every parameter left UNDETERMINED (the analyser's `unknown`): what a matcher that binds
+\* nothing for this argument returns -- an incompleteness, reported under a signature of its own, not a wrong substitution
+RECURSIVE ApplyUnknown(_)
+ApplyUnknown(t) == IF Kind(t) = "tpl" THEN TUnknown
+                   ELSE Mk(Kind(t), Name(t), [i \in 1..Len(Kids(t)) |-> ApplyUnknown(Kids(t)[i])])
+UnionOfContainersArg == \E i \in 1..Len(c[2]) : AllKind(c[2][i], "arr") \/ AllKind(c[2][i], "map")
 SetSeq(S) == CHOOSE f \in [1..Cardinality(S) -> S] : \A i, j \in 1..Cardinality(S) : i # j => f[i] # f[j]
 Decl(tm) == [generics |-> SetSeq(UNION {TplNames(tm[2][i]) : i \in 1..Len(tm[2])}),
              params |-> [i \in 1..Len(tm[2]) |-> Syn(tm[2][i])],
@@ -163,6 +208,8 @@ Emit == PrintT(<<"CASE", ToJson([tpl |-> c[1], decl |-> Decl(Tmpl),
                                  argskel |-> [i \in 1..Len(c[2]) |-> Skel(c[2][i])],
                                  judged |-> Judged,
                                  optnil |-> OptNil,
+                                 uoc |-> UnionOfContainersArg,
+                                 undetermined |-> Norm(ApplyUnknown(Tmpl[3])),
                                  expected |-> IF Judged THEN Norm(Expected) ELSE Norm(TNil),
                                  expected_syntax |-> IF Judged THEN Syn(Expected) ELSE ""])>>)
 ASSUME PrintT(<<"WORLD", ToJson([classes |-> [A |-> <<"B">>, B |-> <<>>],
